@@ -1,4 +1,4 @@
-import TornadoModel.C06.Present
+import TornadoModel.C06.CopyRun
 /-!
 C06 — property theorems: HTTP header maps behave as a case-insensitive insertion-ordered multimap.
 Only property theorems and non-vacuity examples live here; helper lemmas are in `Lemmas`, `Norm`, `Refine`.
@@ -168,6 +168,17 @@ theorem copy_equal (ops : List Op) (hv : Valid (run empty ops).1.asList) :
     (by simp [empty, dkeys])
   exact ⟨c, h1, by simpa [empty] using h2⟩
 
+/-- **A copy is a multimap of its own**: after any history, if the copy constructor succeeds, then EVERY further
+    history run on the copy produces exactly the outputs of the multimap copy (`Spec.copy`: a fresh multimap holding the
+    same pairs) — the copy's cache and `_last_key` are consistent, whatever the original's were — while every
+    further history on the original produces the outputs of the multimap it was.  (That the two Python objects
+    share no mutable list is an aliasing fact outside this immutable model: correspondence stream, `copy` cases.) -/
+theorem copy_behaves_as_multimap (ops after : List Op) (c : Headers) (hc : copy (run empty ops).1 = .ok c) :
+    (run c after).2 = (Spec.run (Spec.copy (Spec.run Spec.empty ops).1) after).2 ∧
+    ∀ after2, (run (run empty ops).1 after2).2 = (Spec.run (Spec.run Spec.empty ops).1 after2).2 := by
+  obtain ⟨_, r⟩ := run_refines R_empty ops
+  exact ⟨(run_refines (copy_related r hc) after).1, fun after2 => (run_refines r after2).1⟩
+
 theorem validPairs_getAll (l : List (Str × List Str)) (hv : Valid l) :
     ValidPairs (l.flatMap (fun (k, vs) => vs.map (fun v => (k, v)))) := by
   intro p hp
@@ -202,6 +213,10 @@ example :
     [65, 45, 66] ∈ keys h ∧ h.cache ≠ [] ∧ Reported h [65, 45, 66] ∧
       [65, 45, 66].map lowerC = [97, 45, 66].map lowerC := by
   refine ⟨by decide, by decide, Or.inr (Or.inl (by decide)), by decide⟩
+
+/-! non-vacuity of `copy_behaves_as_multimap`: a reachable state with a stale-prone cache whose copy succeeds -/
+example : ∃ c, copy (run empty [Op.add [65] [49], Op.get [65], Op.add [97] [50], Op.set [66] [51]]).1 = .ok c :=
+  ⟨_, rfl⟩
 
 /-! non-vacuity of `Valid`: a reachable multi-valued, multi-name state satisfies it -/
 example : Valid (run empty [Op.add [65] [49], Op.add [97] [50], Op.set [66, 45, 99] [51, 32, 52]]).1.asList := by
